@@ -39,8 +39,8 @@ var engines = map[string]engineSpec{
 
 // propEngines lists the engines whose runs decide a property, with weights.
 var propEngines = map[string][]string{
-	"C01": {"e1"}, "C02": {"e1", "e2"}, "C03": {"e2"}, "C04": {"e1", "e2"}, "C05": {"e1"}, "C06": {"e1", "e1", "e2"}, "C07": {"e1"},
-	"C08": {"e1", "e2"}, "C09": {"e1", "e2"}, "C10": {"e3"}, "C11": {"e1"}, "C12": {"e1"}, "C13": {"e13", "e13", "e2"}, "C14": {"e1", "e1", "e2"}, "C15": {"e2"}, "C16": {"e2"}, "C17": {"e1", "e1", "e2"},
+	"C01": {"e1", "e1", "e2"}, "C02": {"e1", "e2"}, "C03": {"e2"}, "C04": {"e1", "e2"}, "C05": {"e1", "e1", "e2"}, "C06": {"e1", "e1", "e2"}, "C07": {"e1", "e1", "e2"},
+	"C08": {"e1", "e2"}, "C09": {"e1", "e2"}, "C10": {"e3"}, "C11": {"e1", "e1", "e1", "e2"}, "C12": {"e1", "e1", "e1", "e2"}, "C13": {"e13", "e13", "e2"}, "C14": {"e1", "e1", "e2"}, "C15": {"e2"}, "C16": {"e2", "e2", "e13"}, "C17": {"e1", "e1", "e2"},
 	"C18": {"e1", "e2"}, "C19": {"e1"}, "C20": {"e2"},
 }
 
